@@ -324,6 +324,10 @@ def lifecycle_history(world, rnd, nops, disorder=0.0, reconf_cfgs=None, sync=Tru
                         del ctrs[c]
                 ops.append({"op": "RemovePod", "pod": p})
                 del pods[p]
+    # back to the configuration booted with (under load, or once everything is gone): quiescence is then the boot state
+    back = rnd.random() if reconf_cfgs else 1.0
+    if back < 0.5:
+        ops.append({"op": "Reconfigure", "config": world["config"], "tag": "back"})
     # drain: stop and remove everything, then probe that the plugin still serves
     for c in list(ctrs):
         if ctrs[c] in ("created", "running"):
@@ -333,6 +337,8 @@ def lifecycle_history(world, rnd, nops, disorder=0.0, reconf_cfgs=None, sync=Tru
     for p in list(pods):
         ops.append({"op": "StopPod", "pod": p, "tag": "drain"})
         ops.append({"op": "RemovePod", "pod": p, "tag": "drain"})
+    if 0.5 <= back < 0.8:
+        ops.append({"op": "Reconfigure", "config": world["config"], "tag": "back"})
     ops.append({"op": "RunPod", "pod": "probe", "pods": {"ns": "default", "qos": "BestEffort"}, "tag": "probe"})
     ops.append({"op": "Create", "pod": "probe", "c": "probe-c", "ctr": {"cpureq": 0, "cpulim": 0, "memlim": 0, "memreq": 0}, "tag": "probe"})
     ops.append({"op": "Stop", "pod": "probe", "c": "probe-c", "tag": "probe"})
@@ -584,6 +590,8 @@ def valid_configs(world, rnd):
         if t:
             # (only changes under which the containers already running still fit: widening, never narrowing, limits)
             out += [dict(cfg, balloonTypes=[dict(t[0], maxCPUs=0)] + t[1:]), dict(cfg, balloonTypes=t + [{"name": "extra", "minCPUs": 1, "maxCPUs": 2}]),
+                    # defines the type that refused containers asked for: they stay refused
+                    dict(cfg, balloonTypes=t + [{"name": "nosuchtype", "minCPUs": 1, "maxCPUs": 2}]),
                     dict(cfg, balloonTypes=[dict(t[0], shareIdleCPUsInSame="system")] + t[1:]),
                     # changes that only touch pinning switches / CPU classes (the policy's light reconfiguration path)
                     dict(cfg, balloonTypes=[dict(x, pinMemory=False) for x in t]),
